@@ -78,14 +78,21 @@ class CrashInterp(Interp):
         self.slice = ctx.program.get("crash_slice", (0, 1))
         self.event_no = 0
         self.last_hash = None
-        self.cur_op = -1
+        self.cur_op = -2  # -2: server start-up, -1: initial observation, >=0: ops
         self.counts = {"events": 0, "states": 0, "dups": 0}
 
     async def after_mutation(self, boxes, why):
         return  # no observer probes during the recorded history (model follows acknowledgements)
 
     async def probe_all(self, **kw):
-        return
+        # only the initial observation (reveals every UID: the ledger the crash checks use)
+        if kw.get("initial"):
+            self.cur_op = -1
+            await Interp.probe_all(self, **kw)
+
+    async def compare_box(self, box, why="", initial=False):
+        if initial:
+            await Interp.compare_box(self, box, why=why, initial=initial)
 
     def build_store(self):
         super().build_store()
@@ -250,8 +257,10 @@ async def probe_crash_state(world, node, expect_before, expect_after, violate, c
         A = expect_after.get(name)
         if B is None and A is None:
             continue
-        states = [s for s in (B, A) if s is not None and not s["uncertain"]]
-        if not states or len(states) < len([s for s in (B, A) if s is not None]):
+        if B is None or A is None:
+            continue  # the op in flight creates / deletes / renames this mailbox
+        states = [s for s in (B, A) if not s["uncertain"]]
+        if len(states) < 2:
             continue
         # ledger: no revealed (uvv, uid) may name another message now
         for st in states[:1]:
@@ -345,10 +354,13 @@ def check_snapshot(snap, states, program, opts, idx):
         counts[k] = counts.get(k, 0) + 1
 
     op = snap["op"]
-    before = states.get(op - 1) if op >= 0 else states.get(-1)
-    after = states.get(op, before)
-    if op == -1:
+    if op == -2:
+        before = after = {}  # nothing has been revealed or acknowledged yet
+    elif op == -1:
         before = after = states.get(-1)
+    else:
+        before = states.get(op - 1)
+        after = states.get(op, before)
 
     async def main():
         node = UserNode(world, maildir)
